@@ -235,6 +235,37 @@ def run(ctx):
         EN.run_natural(pq, EngineRecorder(), ctx.seed + 3, per_family=8 if quick else 60)
     ctx.notes["states_monitored_in_natural_runs"] = mon.n
     ctx.tick("monitors")
+    # ---- PqGaussian behaviours (every ordered mode tuple, complex squeezing phases, two-mode squeezers followed by single-mode
+    # active gates on a correlated spectator, ...): monitors after EVERY instruction and the exact covariance at the end
+    from .. import gaussian_replay as GR
+    for dd, ng, depth in ((2, 12 if quick else 30, 2), (3, 6 if quick else 14, 2 if quick else 3)):
+        ggates = L.gaussian_catalogue(dd, rng=rng, size=ng)
+        grecs = GR.explore(ctx, dd, ggates, depth)
+        if quick and len(grecs) > 90:
+            grecs = rng.sample(grecs, 90)
+        perm = GR.xxpp_to_xpxp_perm(dd)
+        for rec in grecs:
+            mu_, Gam_, reps, nbar_ = GR.decode(rec, dd)
+            idx = [i - 1 for i in rec["hist"]]
+            gnames = [ggates[i]["name"] + str(ggates[i]["modes"]) for i in idx]
+            hbar = rng.choice([h[4] for h in L.HBARS])
+            pure = not any(ggates[i].get("chan") for i in idx)
+            ctx.case(("gauss-lattice", tuple(gnames), hbar), nontrivial=len(idx) > 0)
+            try:
+                with warnings.catch_warnings():
+                    warnings.simplefilter("ignore")
+                    with StepMonitor(ctx, f"lattice hbar={hbar}", pure=pure):
+                        ins = [pq.Vacuum()] + [ggates[i]["mk"](pq).on_modes(*ggates[i]["modes"]) for i in idx]
+                        gst = pq.GaussianSimulator(d=dd, config=pq.Config(hbar=hbar, cutoff=4)).execute(pq.Program(instructions=ins)).state
+                cov = np.asarray(gst.xxpp_covariance_matrix)
+                if np.abs(cov - reps[hbar][1]).max() > 1e-8 * max(1.0, np.abs(reps[hbar][1]).max()):
+                    ctx.report("C08:gaussian:covariance-not-exact:" + "/".join(sorted({n.split("(")[0] for n in gnames})),
+                               f"GaussianSimulator covariance after {gnames} (hbar {hbar}) differs from the exact (physical) covariance of the specification", {"gates": gnames, "hbar": hbar})
+                else:
+                    ctx.validated()
+            except Exception as e:  # noqa
+                ctx.report(f"C08:execute-raises:{type(e).__name__}:gaussian-lattice", f"{type(e).__name__}: {str(e)[:100]} for {gnames}", {"gates": gnames, "hbar": hbar})
+    ctx.tick("gaussian_lattice")
     # post-measurement states of general-dyne measurements: exact conditional state of PqDyne (physical by construction on the spec)
     from . import c02
     with StepMonitor(ctx, "dyne") as mon2:
